@@ -253,7 +253,19 @@ example : (ops "1.5").map (crateRule "en" .ordinal) = some .one ∧ cat "en" .or
 
 -- TEST: the whole path of the code on `1.0` in English: remembered digits, printing, operands, category, selection
 example : tryNumber (strBytes "1.0") = .number ⟨⟨false, [1], [0]⟩, { minimumFractionDigits := some 1 }⟩ := by rfl
-example : ruleLocale "en-US" = "en" ∧ ruleLocale "pl" = "pl" ∧ ruleLocale "xx" = "en" ∧ ruleLocale "ar-EG" = "ar" := by decide
+example : ruleLocale "en-US" .cardinal = "en" ∧ ruleLocale "pl" .ordinal = "pl" ∧ ruleLocale "xx" .cardinal = "en" ∧
+    ruleLocale "ar-EG" .cardinal = "ar" := by decide
+-- TEST: negotiation with the crate's one region-specific entry: exact `pt-PT` (cardinal only) wins over `pt`
+example : ruleLocale "pt-PT" .cardinal = "pt-PT" ∧ ruleLocale "pt" .cardinal = "pt" ∧ ruleLocale "pt-BR" .cardinal = "pt" ∧
+    ruleLocale "pt-AO" .cardinal = "pt" ∧ ruleLocale "pt-PT" .ordinal = "pt" ∧ ruleLocale "pt-Latn-PT" .cardinal = "en" ∧
+    localeShape "pt-Latn-PT" = none := by decide
+-- TEST: pt versus pt-PT on 0 and 1.5 (pt one: i = 0..1; pt-PT one: i = 1 and v = 0)
+example : cat "pt" .cardinal "0" = some .one ∧ cat "pt-PT" .cardinal "0" = some .other ∧
+    cat "pt" .cardinal "1.5" = some .one ∧ cat "pt-PT" .cardinal "1.5" = some .other ∧
+    cat "pt" .cardinal "1" = some .one ∧ cat "pt-PT" .cardinal "1" = some .one ∧
+    cat "pt" .cardinal "2" = some .other ∧ cat "pt-PT" .cardinal "1.0" = some .other := by decide
+example : pluralCategory "pt-PT" ⟨⟨false, [0], []⟩, {}⟩ = some .other ∧ pluralCategory "pt-BR" ⟨⟨false, [0], []⟩, {}⟩ = some .one ∧
+    pluralCategory "pt-PT" ⟨⟨false, [1], [5]⟩, {}⟩ = some .other ∧ pluralCategory "pt" ⟨⟨false, [1], [5]⟩, {}⟩ = some .one := by decide
 example : asString ⟨⟨false, [1], [0]⟩, { minimumFractionDigits := some 1 }⟩ = strBytes "1.0" := by decide
 example : operandsOf ⟨⟨false, [1], [0]⟩, { minimumFractionDigits := some 1 }⟩ =
     some ⟨⟨false, [1], []⟩, 1, 1, 0, 0, 0⟩ := by decide
